@@ -209,10 +209,21 @@ def handler_step(op, n, created, last, now, d1, t):
             return "initialize:session-version-differs-from-answer"
         if rec[3] != {"name": "cli", "version": "9"}:
             return "initialize:client-info-not-recorded"
-    elif op == "request":
-        msg = JM.JSONRPCMessage(jsonrpc="2.0", id=2, method="ping")
+    elif op in ("request", "request_unknown", "notification_unknown", "request_failing"):
+        if op == "request":
+            msg = JM.JSONRPCMessage(jsonrpc="2.0", id=2, method="ping")
+        elif op == "request_unknown":
+            msg = JM.JSONRPCMessage(jsonrpc="2.0", id=2, method="tools/list")  # not registered on a bare ProtocolHandler
+        elif op == "request_failing":
+            async def failing(message, session_id):
+                raise ValueError("handler failed")
+
+            h.register_method("x/fail", failing)
+            msg = JM.JSONRPCMessage(jsonrpc="2.0", id=2, method="x/fail")
+        else:
+            msg = JM.JSONRPCMessage(jsonrpc="2.0", method="notifications/cancelled", params={"requestId": 1})
         resp, sid = drive(h.handle_message(msg, tid))
-        if resp is None:
+        if resp is None and op != "notification_unknown":
             return "request:no-response"
         if tid in model:
             m = model[tid]
